@@ -391,42 +391,39 @@ theorem unsubscribe_ok (x : Index) (f cid : Str) (h : NodesWF x.nodes) :
   unfold unsubscribe
   extract_lets ls share p group
   split
-  · split
-    · exact ⟨h, by simp⟩
-    · rename_i n hs
-      have hn := seek_some hs
-      have hnw := h.nodes n (getNode_mem hn)
-      obtain ⟨hsw, hsl⟩ := sharedDel_ok n.shared group cid hnw.shared
-      have hput := cnt_putNode x.nodes n { n with shared := sharedDel n.shared group cid } h.paths.1
-        (by show getNode x.nodes n.path = some n; rw [getNode_path hn]; exact hn)
-      have hnsw : NodesWF (putNode x.nodes { n with shared := sharedDel n.shared group cid }) :=
-        h.putNode _ ⟨hnw.subs, hsw⟩
-      obtain ⟨ht, htc⟩ := trim_ok _ p p.length hnsw
-      refine ⟨ht, ?_⟩
-      show (cnt (trim (putNode x.nodes { n with shared := sharedDel n.shared group cid }) p p.length) : Int) =
-        (cnt x.nodes : Int) - (if (sharedGet n.shared group cid).isSome = true then 1 else 0)
-      rw [htc]
-      unfold nodeCount at hput
-      simp only [] at hput
-      omega
-  · split
-    · exact ⟨h, by simp⟩
-    · rename_i n hs
-      have hn := seek_some hs
-      have hnw := h.nodes n (getNode_mem hn)
-      have hput := cnt_putNode x.nodes n { n with subs := assocDel n.subs cid } h.paths.1
-        (by show getNode x.nodes n.path = some n; rw [getNode_path hn]; exact hn)
-      have hnsw : NodesWF (putNode x.nodes { n with subs := assocDel n.subs cid }) :=
-        h.putNode _ ⟨assocDel_keys_nodup _ _ hnw.subs, hnw.shared⟩
-      obtain ⟨ht, htc⟩ := trim_ok _ p p.length hnsw
-      refine ⟨ht, ?_⟩
-      show (cnt (trim (putNode x.nodes { n with subs := assocDel n.subs cid }) p p.length) : Int) =
-        (cnt x.nodes : Int) - (if (assocGet n.subs cid).isSome = true then 1 else 0)
-      rw [htc]
-      unfold nodeCount at hput
-      simp only [] at hput
-      have hl := length_assocDel n.subs cid hnw.subs
-      cases hs : (assocGet n.subs cid).isSome <;> simp [hs] at hl ⊢ <;> omega
+  · exact ⟨h, by simp⟩
+  split
+  · exact ⟨h, by simp⟩
+  rename_i n hs
+  have hn := seek_some hs
+  have hnw := h.nodes n (getNode_mem hn)
+  split
+  · obtain ⟨hsw, hsl⟩ := sharedDel_ok n.shared group cid hnw.shared
+    have hput := cnt_putNode x.nodes n { n with shared := sharedDel n.shared group cid } h.paths.1
+      (by show getNode x.nodes n.path = some n; rw [getNode_path hn]; exact hn)
+    have hnsw : NodesWF (putNode x.nodes { n with shared := sharedDel n.shared group cid }) :=
+      h.putNode _ ⟨hnw.subs, hsw⟩
+    obtain ⟨ht, htc⟩ := trim_ok _ p p.length hnsw
+    refine ⟨ht, ?_⟩
+    show (cnt (trim (putNode x.nodes { n with shared := sharedDel n.shared group cid }) p p.length) : Int) =
+      (cnt x.nodes : Int) - (if (sharedGet n.shared group cid).isSome = true then 1 else 0)
+    rw [htc]
+    unfold nodeCount at hput
+    simp only [] at hput
+    omega
+  · have hput := cnt_putNode x.nodes n { n with subs := assocDel n.subs cid } h.paths.1
+      (by show getNode x.nodes n.path = some n; rw [getNode_path hn]; exact hn)
+    have hnsw : NodesWF (putNode x.nodes { n with subs := assocDel n.subs cid }) :=
+      h.putNode _ ⟨assocDel_keys_nodup _ _ hnw.subs, hnw.shared⟩
+    obtain ⟨ht, htc⟩ := trim_ok _ p p.length hnsw
+    refine ⟨ht, ?_⟩
+    show (cnt (trim (putNode x.nodes { n with subs := assocDel n.subs cid }) p p.length) : Int) =
+      (cnt x.nodes : Int) - (if (assocGet n.subs cid).isSome = true then 1 else 0)
+    rw [htc]
+    unfold nodeCount at hput
+    simp only [] at hput
+    have hl := length_assocDel n.subs cid hnw.subs
+    cases hs : (assocGet n.subs cid).isSome <;> simp [hs] at hl ⊢ <;> omega
 
 /-- a particle is rewritten in a field other than `subs` / `shared` -/
 theorem putSame_ok (ns : List Node) (n n' : Node) (h : NodesWF ns) (hg : getNode ns n'.path = some n)
